@@ -26,6 +26,7 @@ func checkC15(c *Ctx) {
 	r.Rule("R5.cflist", "the CFList a freshly configured band offers is nil, or the exact enabled-channel masks: ceil(n/16) <= 6 masks, bit i of mask k = channel 16k+i enabled")
 	r.Rule("R4.encodable", "every band constant the MAC layer must carry is accepted by the corresponding MAC encoder and decodes back to the same value")
 	c15Guards(c)
+	c15BookkeepingE1(c)
 	bands, err := c.Bands()
 	if err != nil {
 		r.Unknown("R4.encodable", "band.GetConfig", "", "band configurations evaluable", err.Error())
